@@ -447,6 +447,56 @@ def replay_h_cats_label_typing(i, op1, d):
         shutil.rmtree(dd, ignore_errors=True)
 
 
+BOOL_CONSTS = [True, False, 1, 0, 1.0, 0.0, "True", "False"]
+BOOL_META = {"field_name": "p", "name": "p", "pandas_type": "bool", "numpy_type": "bool", "metadata": None}
+
+
+def h_cats_bool_label(flag: bool, ic: int, op1: int) -> bool:
+    """
+    pre: 0 <= ic < 8 and 0 <= op1 < 6
+    post: __return__
+    """
+    # a boolean partition column recorded in the pandas metadata: the directory label is the text "True" / "False";
+    # the filter constant may be the boolean, the number that equals it (1 == True) or the label's own text.  With the
+    # real typing of both sides (util.val_to_num / val_from_meta, no stub) the group is pruned only if its value
+    # really fails the clause
+    import fastparquet.util as util
+    ic, op1 = _pick(ic, 0, 7), _pick(op1, 0, 5)
+    const = BOOL_CONSTS[ic]
+    rg = _part_rg(5, [("p", "True" if flag else "False")])
+    saved = api.val_to_num
+    api.val_to_num = util.val_to_num
+    try:
+        pruned = api.filter_out_cats(rg, [("p", OPS[op1], const)], {"p": BOOL_META})
+    finally:
+        api.val_to_num = saved
+    meant = (const == "True") if isinstance(const, str) else const
+    if not row_pred(OPS[op1], flag, meant):
+        return True
+    return not pruned
+
+
+def replay_h_cats_bool_label(flag, ic, op1):
+    import tempfile, os, shutil
+    import pandas as pd
+    import fastparquet
+    const = BOOL_CONSTS[ic]
+    dd = tempfile.mkdtemp(prefix="c05-")
+    try:
+        dn = os.path.join(dd, "ds")
+        fastparquet.write(dn, pd.DataFrame({"p": [flag, flag, not flag], "a": [1, 2, 3]}), file_scheme="hive",
+                          partition_on=["p"])
+        pf = fastparquet.ParquetFile(dn)
+        flt = [("p", OPS[op1], const)]
+        out = pf.to_pandas(filters=flt)
+        kept = sorted(int(x) for x in out["a"])
+        if not (1 in kept and 2 in kept):
+            return True, "partition p=%r: filter %r keeps rows a=%r; rows a=1, a=2 satisfy it" % (flag, flt, kept)
+        return False, "kept"
+    finally:
+        shutil.rmtree(dd, ignore_errors=True)
+
+
 def h_cats_two_clauses(p: int, q: int, op1: int, v1: int, op2: int, v2: int, swap: bool) -> bool:
     """
     pre: 0 <= op1 < 7 and 0 <= op2 < 7
